@@ -33,29 +33,29 @@ def variants(kind, tier):
     """parameter palette of one kind -> list of param dicts"""
     T = tier == "thorough"
     if kind == "resistor":
-        return [{"R": r} for r in [7, 0, "1/1000", "inf"] + ([1000000] if T else [])]
+        return [{"R": r} for r in [7, 0, "1/1000", "inf", "1/1000000000000", 1000000000000] + ([1000000] if T else [])]
     if kind == "conductance":
-        return [{"G": g} for g in [3, 0, "1/100"]]
+        return [{"G": g} for g in [3, 0, "1/100", "1/1000000000000", 1000000000000]]
     if kind == "impedance":
-        return [{"Z": z} for z in [[2, 3], [5, -1], [0, 4]]]
+        return [{"Z": z} for z in [[2, 3], [5, -1], [0, 4], ["1/1000000000000", 0], [0, "-1/100000000000"], [30000000000, 1]]]
     if kind == "admittance":
-        return [{"Y": y} for y in [[2, 3], [5, -1], [0, 4]]]
+        return [{"Y": y} for y in [[2, 3], [5, -1], [0, 4], ["1/1000000000000", 0], [0, "-1/100000000000"], [30000000000, 1]]]
     if kind == "capacitor":
-        return [{"C": c} for c in [2, 0, "1/1000"]]
+        return [{"C": c} for c in [2, 0, "1/1000", "1/1000000000000000", 1000000000]]
     if kind == "inductance":
-        return [{"L": l} for l in [3, 0, "1/2"]]
+        return [{"L": l} for l in [3, 0, "1/2", "1/1000000000000", 1000000000]]
     if kind in ("lamp", "resistive_load"):
         return [{"P": p, "V_ref": v} for p in [60, 0] for v in [12, 230]]
     if kind in ("dc_voltage_source", "dc_current_source"):
         k, r = ("V", "R") if "voltage" in kind else ("I", "G")
-        return [{k: v, r: rr} for v in ["5/2", -2] for rr in [0, 3]]
+        return [{k: v, r: rr} for v in ["5/2", -2, "1/1000000000000"] for rr in [0, 3, "1/100000000000"]]
     if kind in ("ac_voltage_source", "ac_current_source"):
         k, r = ("V", "R") if "voltage" in kind else ("I", "G")
         return [{k: v, r: rr, "w": w, "phi": ph} for v in ["5/2", -2] for rr in [0, 3] for w in [0, 1, 50, 2000] for ph in (PHIS if T else PHIS[:3])]
     if kind == "complex_voltage_source":
-        return [{"V": v, "Z": z} for v in [[1, 2], [-3, 0]] for z in [[0, 0], [2, 1]]]
+        return [{"V": v, "Z": z} for v in [[1, 2], [-3, 0], [0, "1/1000000000000"]] for z in [[0, 0], [2, 1], [0, "1/100000000000"]]]
     if kind == "complex_current_source":
-        return [{"I": v, "Y": z} for v in [[1, 2], [-3, 0]] for z in [[0, 0], [2, 1]]]
+        return [{"I": v, "Y": z} for v in [[1, 2], [-3, 0], [0, "1/1000000000000"]] for z in [[0, 0], [2, 1], [0, "1/100000000000"]]]
     if kind in ("periodic_voltage_source", "periodic_current_source"):
         k, r = ("V", "R") if "voltage" in kind else ("I", "G")
         return [{"wavetype": wt, k: v, r: rr, "w": w, "phi": ph} for wt in WAVES for v in (["5/2", -2] if T else ["5/2"])
